@@ -74,7 +74,7 @@ OutOf(n, v) == (n :> [n |-> n, i |-> v])
 \* echo nodes return their input unchanged (so that equal keys can meet at a fan-in and the merge can fail)
 NodeOut(gg, n, v) == IF n \in Range(gg.echo) THEN v ELSE OutOf(n, v)
 \* the harness state carries pointer (nil / non-nil) and container fields that no handler touches: their digest must never change
-FreshStateDigest == "true|7|1|u,v|5|true"
+FreshStateDigest == "true|7|1|u,v|5|true|3"
 \* state handlers that modify what they pass on (scenario flag hmod): the pre-handler adds the key "pre" to the node's input,
 \* the post-handler adds the key "q<node>" to its output -- "the values they return are what the node and its successors receive"
 HMod(gg) == gg.state /\ gg.hmod
@@ -388,6 +388,14 @@ OnResult(S, e) ==
 
 \* failing nodes: running, configured to fail with this kind, as <<prefix, node>>
 Failing(V, kind) == UNION {{<<p, n>> : n \in {x \in V[p].running : x \in GNodes(V[p].g) /\ FailKind(V[p].g, x) = kind}} : p \in DOMAIN V}
+\* a node whose state pre-handler (it has run: the body has not) or state post-handler is configured to fail
+HFail(f, x) == FailKind(f.g, x) = "posterr" \/ (FailKind(f.g, x) = "prerr" /\ x \in f.preDone)
+HFailing(V) == UNION {{<<p, n>> : n \in {x \in GNodes(V[p].g) : HFail(V[p], x)}} : p \in DOMAIN V}
+\* the error names node x: by its full node path; a failing state pre-handler is reported by the run loop of the graph that owns
+\* the node, i.e. under that graph's path with the node key in the message ("run node[k] pre processor fail")
+NamesNode(gg, V, e, x) == \/ e.path = PathOf(gg, x[1]) \o <<x[2]>>
+                          \/ FailKind(V[x[1]].g, x[2]) = "prerr" /\ e.path = PathOf(gg, x[1]) /\ e.prenode = x[2]
+NodeFailing(V) == Failing(V, "err") \cup HFailing(V)
 SerrRan(V) == \E p \in DOMAIN V : V[p].tainted # {} \/ V[p].poisonSrc # {}
 SpanicRan(V) == \E p \in DOMAIN V : \E n \in V[p].tainted \cup V[p].poisonSrc : FailKind(V[p].g, n) = "spanic"
 CancelRan(V) == \E p \in DOMAIN V : V[p].canceled
@@ -402,9 +410,9 @@ ErrorWhy(gg, V, e) == LET c == e.class IN
   ELSE IF e.sets # <<>> THEN "checkpoint-written-without-interrupt"
   ELSE IF c = "node" THEN
        \* (an error item inside a node's output stream surfaces where it is consumed: the path is not constrained for it)
-       (IF ~SerrRan(V) /\ ~\E x \in Failing(V, "err") : e.path = PathOf(gg, x[1]) \o <<x[2]>> THEN "error-names-wrong-node-path"
+       (IF ~SerrRan(V) /\ ~\E x \in NodeFailing(V) : NamesNode(gg, V, e, x) THEN "error-names-wrong-node-path"
         ELSE IF ~e.is \/ ~e.as THEN "cause-not-unwrappable"
-        ELSE IF ~SerrRan(V) /\ ~\E x \in Failing(V, "err") : e.asnode = x[1] \o x[2] THEN "unwrapped-cause-of-another-node"
+        ELSE IF ~SerrRan(V) /\ ~\E x \in NodeFailing(V) : e.asnode = x[1] \o x[2] THEN "unwrapped-cause-of-another-node"
         ELSE "ok")
   ELSE IF c = "dup" THEN
        (IF \E p \in DOMAIN V : DupDue(V[p]) THEN "ok" ELSE "merge-error-not-expected")
